@@ -4,8 +4,9 @@
     that cuts the stream or rewrites messages, and writes three kinds of cases:
     - [HostCase]: the host handler alone — its environment, wallet, the two messages it
       received — with the calls it made on wallet / chain manager / contractor in order,
-      whether it committed (broadcast), how many of its outputs stayed locked and whether
-      a contract was recorded;
+      whether it committed (broadcast), how many of its outputs stayed locked, whether
+      a contract was recorded and the basis it returned with the final set (chain states
+      are named by their height on the host's chain);
     - [RenterCase]: the renter function alone — its environment, wallet, the two messages
       it received — with its verdict, its fund / release calls and its locked outputs;
     - [PairCase]: both over a stream that is cut at one of the four messages (no
@@ -29,6 +30,7 @@ Definition renter_key : N := 1%N.
 Inductive case :=
 | HostCase (k : N) (e : env) (hw : list (N * Z * bool)) (m1 : option req) (m2 : option rsigs)
     (ok : bool) (calls : list hcall) (dlock : Z) (recorded : bool)
+    (rbasis : option N) (* the basis in the final response the host sent, if it sent one *)
 | RenterCase (k : N) (re : renv) (rw : list (N * Z * bool)) (t : cterms)
     (m2 : option hinputs) (m4 : option final)
     (ok : bool) (calls : list rcall) (dlock : Z)
@@ -82,9 +84,15 @@ Definition check_renter (o : rout) (ok : bool) (calls : list rcall) (dlock : Z) 
 
 Definition check_case (c : case) : bool :=
   match c with
-  | HostCase k e hw m1 m2 ok calls dlock recorded =>
+  | HostCase k e hw m1 m2 ok calls dlock recorded rbasis =>
       let h := mk_host host_key (wallet_of hw) [] [] [] in
-      check_host (host_run true (kind_of k) e h m1 m2) ok calls dlock recorded
+      let o := host_run true (kind_of k) e h m1 m2 in
+      check_host o ok calls dlock recorded
+      && match sent_final (ho_sent o), rbasis with
+         | Some f, Some b => N.eqb (f_basis f) b
+         | None, None => true
+         | _, _ => false
+         end
   | RenterCase k re rw t m2 m4 ok calls dlock =>
       let r := mk_renter renter_key (wallet_of rw) [] in
       check_renter (renter_run true (kind_of k) re r t m2 m4) ok calls dlock
